@@ -1215,13 +1215,24 @@ func (r *RIBHolder) GetNextHopGroup(id uint64) (*aft.Afts_NextHopGroup, bool) {
 
 // candidateRIB takes the input set of Afts and returns them as a aft.RIB pointer
 // that can be merged into an existing RIB.
-func candidateRIB(a *aftpb.Afts) (*aft.RIB, error) {
+func candidateRIB(a *aftpb.Afts) (nr *aft.RIB, err error) {
+	// The conversion relies on reflection over the generated protobuf and
+	// YANG code, which panics for some malformed input (for example, an
+	// enumerated field that carries an undefined value). The input comes
+	// straight from a client, which must not be able to take the server
+	// down, so such an entry is reported as invalid.
+	defer func() {
+		if p := recover(); p != nil {
+			nr, err = nil, fmt.Errorf("invalid entry provided, cannot be converted, %v", p)
+		}
+	}()
+
 	paths, err := protomap.PathsFromProto(a)
 	if err != nil {
 		return nil, err
 	}
 
-	nr := &aft.RIB{}
+	nr = &aft.RIB{}
 	for p, v := range paths {
 		sv, err := value.FromScalar(v)
 
